@@ -891,8 +891,21 @@ func checkLazyHeader(c *core.Ctx, l *core.Ledger, m *wireModel) {
 			if !ok {
 				return
 			}
-			n := core.FieldOf(fa).Name()
+			n := lazyFieldRole(c, fa)
+			if n == "" {
+				return
+			}
 			got[n] = normRepl.Replace(core.Sym(st.Val))
+			if n == "startOffset" || n == "readerAt" {
+				// the reader's own cursor / source: a field of a struct-typed field of the receiver ($0.x.y)
+				if regexp.MustCompile(`^\$0\.\w+\.\w+$`).MatchString(got[n]) {
+					if n == "startOffset" && core.TypeLabel(stripConv(st.Val).Type()) == "int64" {
+						got[n] = "$0.or.offset"
+					} else if n == "readerAt" && core.TypeLabel(st.Val.Type()) == "io.ReaderAt" {
+						got[n] = "$0.or.reader"
+					}
+				}
+			}
 			if n == "startOffset" {
 				v := st.Val
 				for {
@@ -1167,4 +1180,77 @@ func fixedWidthOf(c *core.Ctx, k *types.Const) int64 {
 		return v
 	}
 	return def
+}
+
+func stripConv(v ssa.Value) ssa.Value {
+	for {
+		if cv, ok := v.(*ssa.Convert); ok {
+			v = cv.X
+			continue
+		}
+		return v
+	}
+}
+
+// lazyFieldRole names a field of a lazy container by what it is used for: the
+// field its Size / ValueType / KeyType accessor returns (count, typ or vtype,
+// ktype), its io.ReaderAt (readerAt) and its int64 (startOffset). "" for fields
+// of other structs.
+func lazyFieldRole(c *core.Ctx, fa *ssa.FieldAddr) string {
+	fld := core.FieldOf(fa)
+	if fld == nil {
+		return ""
+	}
+	pt, ok := fa.X.Type().Underlying().(*types.Pointer)
+	if !ok {
+		return ""
+	}
+	named, ok := pt.Elem().(*types.Named)
+	if !ok || named.Obj().Pkg() == nil || !strings.HasSuffix(named.Obj().Pkg().Path(), "protocol/binary") {
+		return ""
+	}
+	isMap := false
+	accessor := map[string]string{"Size": "count", "ValueType": "typ", "KeyType": "ktype"}
+	ms := types.NewMethodSet(types.NewPointer(named))
+	has := map[string]bool{}
+	for i := 0; i < ms.Len(); i++ {
+		has[ms.At(i).Obj().Name()] = true
+	}
+	if !has["Size"] || !has["ForEach"] {
+		return "" // not a lazy container
+	}
+	if has["KeyType"] {
+		isMap = true
+		accessor["ValueType"] = "vtype"
+	}
+	_ = isMap
+	for i := 0; i < ms.Len(); i++ {
+		role, tracked := accessor[ms.At(i).Obj().Name()]
+		if !tracked {
+			continue
+		}
+		fn, _ := ms.At(i).Obj().(*types.Func)
+		f := c.SSAFunc(fn)
+		if f == nil {
+			continue
+		}
+		hit := false
+		core.Instrs(f, func(in ssa.Instruction) {
+			if r, isR := in.(*ssa.Return); isR && len(r.Results) == 1 {
+				if f2, _ := core.LoadedField(stripConv(r.Results[0])); f2 == fld {
+					hit = true
+				}
+			}
+		})
+		if hit {
+			return role
+		}
+	}
+	switch core.TypeLabel(fld.Type()) {
+	case "io.ReaderAt":
+		return "readerAt"
+	case "int64":
+		return "startOffset"
+	}
+	return fld.Name()
 }
